@@ -22,6 +22,7 @@ OBLIGATIONS = [
     "NanoVerif.C13.toSvg_correct",
     "NanoVerif.C13.fill_correct",
     "NanoVerif.C13.maxAlg_laws",
+    "NanoVerif.C13.radial_applyTransform_sound",
 ]
 DESIGN_REF = "DESIGN.md §5 C13"
 LEVEL_TEXT = ("Proof of the recursive walk for the solid/linear subset + per-step theorems + sampling for the rest. Proved in Lean: "
